@@ -15,11 +15,13 @@ pub fn components() -> Value {
         "real": [
             "all of /repo/src reached by the readers/writers (fasta.rs, fastq.rs, lib.rs fill_buf/trim_cr, policy.rs), built from the current working tree without the hook cfg",
             "buffer-redux 1.0.2, memchr",
-            "serde / serde_derive / serde_json (C19)"
+            "serde / serde_derive / serde_json / ciborium (C19)",
+            "from_path / from_fifo profiles (C01, C02, C06, C09): a real scratch file or a real FIFO in std::env::temp_dir(); the FIFO is fed by one helper thread that writes a piece (<= 4096 bytes, one atomic pipe write) only when the pipe is empty, so the sequence of read results is a function of the scenario, not of timing",
+            "std::io::BufWriter in front of a SimSink (C10, C11)"
         ],
         "stub": [
             "SimSource (io::Read + io::Seek) in place of files/pipes: scripted chunk sizes, Interrupted, injected errors",
-            "SimSink (io::Write): scripted short writes, Interrupted, injected errors",
+            "SimSink (io::Write): scripted short writes, Interrupted, injected errors; optionally a gathering write_vectored that stops inside any slice",
             "SimPolicy (BufPolicy): recording wrapper around the real built-in policies or scripted growing/refusing policies",
             "counting global allocator (delegates to System)"
         ]
@@ -752,7 +754,7 @@ impl Check for ReadCheck {
     fn assumptions(&self) -> Vec<String> {
         vec![
             "reference model (sim-io/src/model.rs) and its accepted-outcome sets (DESIGN 4.3) are the specification".into(),
-            "SimSource obeys the io::Read contract: never Ok(0) before the end, bytes in order".into(),
+            "SimSource obeys the io::Read contract: bytes in order, and never Ok(0) before the end except in the growing-input profile of C20 (one Ok(0), then more data), where only the stickiness of the reported end is judged".into(),
             "sampling, not enumeration: a clean batch is evidence, not proof".into(),
         ]
     }
